@@ -496,6 +496,8 @@ def _guards_of(root, target):
             part = key[key.index("]") + 2:]
             if part in ("body", "guard"):
                 out.append(("match", anc["scrut"], anc["arms"][idx]["pat"], anc.get("src")))
+                if part == "body" and anc["arms"][idx].get("guard") is not None:
+                    out.append(("if", anc["arms"][idx]["guard"], True))
         elif k == "Loop":
             out.append(("loop", anc))
         elif k == "Closure":
@@ -687,6 +689,19 @@ def find_iterations(root):
 def pat_binders(p):
     """ids of all bindings of a pattern, in order"""
     return [x["id"] for x in walk(p) if x["k"] == "Bind"] if p else []
+
+
+def conditions(root):
+    """[(condition, guarded_body, node)] for every `if c { body }` and every guarded match arm `pat if c => body`"""
+    out = []
+    for x in walk_exprs(root):
+        if x["k"] == "If" and x["c"]["k"] != "LetE":
+            out.append((x["c"], x["t"], x))
+        elif x["k"] == "Match":
+            for a in x["arms"]:
+                if a.get("guard") is not None:
+                    out.append((a["guard"], a["body"], x))
+    return out
 
 
 def conjuncts(c):
